@@ -621,6 +621,7 @@ class Sequence(OrderIndicator):
             if not xmlelements:
                 break
 
+            num_elements = len(xmlelements)
             item_result = OrderedDict()
             for elm_name, element in self.elements:
                 try:
@@ -640,6 +641,12 @@ class Sequence(OrderIndicator):
 
                 if not xmlelements:
                     break
+
+            # Stop when nothing was consumed, otherwise we would keep
+            # looping until max_occurs is reached without making progress
+            if len(xmlelements) == num_elements:
+                break
+
             if item_result:
                 result.append(item_result)
 
@@ -737,10 +744,11 @@ class Group(Indicator):
         result = []
 
         for _unused in max_occurs_iter(self.max_occurs):
+            num_elements = len(xmlelements)
             result.append(
                 self.child.parse_xmlelements(xmlelements, schema, name, context=context)
             )
-            if not xmlelements:
+            if not xmlelements or len(xmlelements) == num_elements:
                 break
         if not self.accepts_multiple and result:
             return result[0]
